@@ -90,7 +90,17 @@ func runC05(c *Ctx) {
 		r.Check(bad == 0 && isErr, "C05.exits.length-rule", c.P.Pos(fn.Pos()), "first test rejects exactly when len(hrp)+1+ceil(8·len(src)/5)+6 > 90, over (0..95)×(0..60) = %d pairs; %s", len(tuples), example)
 	}
 	// gates
-	accLen := plainEdges(edgesMatching(b, "bin<<=>(bin<+>(bin<+>(bin<+>(len(p0), "+el+"), 6), 1), 90)"))
+	// the length gate is the first branch, whose two sides were just decided by value-set analysis
+	var accLen, rejLen []ana.Edge
+	for _, ce := range b.CondEdges() {
+		if ce.From == fn.Blocks[0] {
+			if ce.Taken {
+				rejLen = append(rejLen, ce.Edge)
+			} else {
+				accLen = append(accLen, ce.Edge)
+			}
+		}
+	}
 	accNonEmpty := plainEdges(edgesMatching(b, "bin<>=>(len(p0), 1)", "bin<>>(len(p0), 0)"))
 	accCase := plainEdges(edgesMatching(b, "bin<==>(call<*>(p0), nil)"))
 	var hrpLoop *rangeLoop
@@ -108,8 +118,9 @@ func runC05(c *Ctx) {
 			}
 		}
 	}
-	rejects := plainEdges(edgesMatching(b, "bin<>>(bin<+>(bin<+>(bin<+>(len(p0), "+el+"), 6), 1), 90)", "bin<<>(len(p0), 1)", "bin<<=>(len(p0), 0)",
+	rejects := plainEdges(edgesMatching(b, "bin<<>(len(p0), 1)", "bin<<=>(len(p0), 0)",
 		"un<!>(call<*>(ext#2(next(range(p0)))))", "bin<!=>(call<*>(p0), nil)"))
+	rejects = append(rejects, rejLen...)
 	avoid := ana.ReachableAvoiding(fn, rejects)
 	for _, e := range errs {
 		r.Check(!avoid[e.Instr.Block()], "C05.exits.reject-closed", c.ipos(e.Instr), "error exit reachable only through {too long, empty hrp, invalid hrp rune, mixed case}")
